@@ -26,12 +26,7 @@ def validate_decoded(obj):
   if isinstance(obj, gfapy.FieldArray):
     obj.validate()
   elif isinstance(obj, list) or isinstance(obj, dict):
-    string = encode(obj)
-    validate_all_printable(string)
-    if json.loads(string) != obj:
-      raise gfapy.ValueError(
-        "{} cannot be represented as JSON without changing it\n".format(repr(obj))+
-        "(keys which are not strings, tuples, ...)")
+    encode(obj)
   else:
     raise gfapy.TypeError(
       "the class {} is incompatible with the datatype\n"
@@ -60,6 +55,10 @@ def encode(obj):
   elif isinstance(obj, list) or isinstance(obj, dict):
     string = _dumps(obj)
     validate_all_printable(string)
+    if json.loads(string) != obj:
+      raise gfapy.ValueError(
+        "{} cannot be represented as JSON without changing it\n".format(repr(obj))+
+        "(keys which are not strings, tuples, ...)")
     return string
   else:
     raise gfapy.TypeError(
